@@ -139,6 +139,43 @@ pub fn run(_a: &HashMap<String, String>) -> (usize, usize) {
             }
         }
     }
+    // the same rules apply to an explicitly named executable, whatever argv[0] looks like
+    {
+        let _ = std::fs::remove_dir_all(&base);
+        mk("A", 'x');
+        mk("B", '-');
+        std::env::set_var("PATH", format!("{}/A", base));
+        for &(exe_bare, argv0) in &[(true, "fancy/name"), (false, "bare")] {
+            let exe = if exe_bare { "vcand".to_string() } else { format!("{}/A/vcand", base) };
+            let mut v = vec![];
+            std::env::set_current_dir(format!("{}/B", base)).unwrap();
+            let res = Popen::create(&[argv0], PopenConfig { executable: Some(exe.clone().into()), ..Default::default() });
+            std::env::set_current_dir(&old_cwd).unwrap();
+            match res {
+                Ok(mut p) => {
+                    match read_report(p.pid().unwrap(), 1500) {
+                        Some(rep) => {
+                            if rep.exe != format!("{}/A/vcand", base).as_bytes() {
+                                v.push(format!("C15/candidate-order: executable override {} with argv[0] {} ran {}", exe, argv0, String::from_utf8_lossy(&rep.exe)));
+                            }
+                        }
+                        None => v.push("ENV/no-report".to_string()),
+                    }
+                    let _ = p.wait();
+                }
+                Err(e) => v.push(format!("C15/candidate-order: executable override {} with argv[0] {:?} was not resolved by the lookup rules of the executable itself: {:?}", exe, argv0, e)),
+            }
+            cases += 1;
+            if v.is_empty() {
+                println!("CASE exe_override bare={} OK", exe_bare as u8);
+            } else {
+                viols += 1;
+                for m in v {
+                    println!("CASE exe_override bare={} VIOL {}", exe_bare as u8, m);
+                }
+            }
+        }
+    }
     match old_path {
         Some(p) => std::env::set_var("PATH", p),
         None => std::env::remove_var("PATH"),
